@@ -179,13 +179,21 @@ def run(ctx: Ctx):
     ctx.assumptions = ['token categories are read from the imported tree (C05 does not impose a category table)',
                        'a chord whose notes are all emptied may or may not keep its line (the statement does not decide)']
     if ctx.tier == 'quick':
-        for cs in cases(ctx, 'c05', 22):
-            one(ctx, cs, n_pairs=300)
+        for k_, cs in enumerate(cases(ctx, 'c05', 22)):
+            # every fourth document: lyrics / dynamics / harmony beside the notes, a good share of their words spelled with the
+            # characters of the null tokens ('...'): a line that holds such a word is not an empty line, whatever is filtered around it
+            if k_ % 4 == 3:
+                one(ctx, cs, 'texty', n_pairs=300, null_like_words=0.25)
+            else:
+                one(ctx, cs, n_pairs=300)
         for k_, cs in enumerate(cases(ctx, 'c05-derived', 6)):
             one(ctx, cs, n_pairs=200, derive=['transposed', 'transposed', 'concat'][k_ % 3])
     else:
-        for cs in cases(ctx, 'c05', 40):
-            one(ctx, cs, all_pairs=True, n_big=200)
+        for k_, cs in enumerate(cases(ctx, 'c05', 40)):
+            if k_ % 4 == 3:
+                one(ctx, cs, 'texty', all_pairs=True, n_big=200, null_like_words=0.25)
+            else:
+                one(ctx, cs, all_pairs=True, n_big=200)
         for k_, cs in enumerate(cases(ctx, 'c05-derived', 6)):
             one(ctx, cs, n_pairs=600, n_big=100, derive=['transposed', 'transposed', 'concat'][k_ % 3])
     ctx.extra['exporter_recorder'] = dict(_rec)
